@@ -1,7 +1,8 @@
 #!/venv/bin/python
 """Run the registered quick checks against every confirmed seeded change (scratch copies of
 /repo, never /repo itself) and write seeded/REGRESSION.json.  usage: regress_seeds.py [seed ids...]
-Environment: VERIF_SEED (default 0), REGRESS_PARALLEL (default 2 seeds at a time)."""
+Environment: VERIF_SEED (default 0), REGRESS_PARALLEL (default 2 seeds at a time), REGRESS_OUT (result file for a
+subset of the seeds; the full run writes seeded/REGRESSION.json)."""
 import concurrent.futures as cf
 import json
 import os
@@ -67,7 +68,9 @@ def main():
             print(sid, json.dumps(res), flush=True)
     out = {"verif_seed": int(os.environ.get("VERIF_SEED") or 0), "tier": "quick", "results": results,
            "caught": sum(1 for r in results.values() if r["result"] == "caught"), "total": len(results)}
-    if not sys.argv[1:]:
+    if os.environ.get("REGRESS_OUT"):
+        json.dump(out, open(os.environ["REGRESS_OUT"], "w"), indent=1)
+    elif not sys.argv[1:]:
         json.dump(out, open(os.path.join(VERIF, "seeded", "REGRESSION.json"), "w"), indent=1)
     print("caught %d of %d" % (out["caught"], out["total"]))
 
